@@ -114,7 +114,7 @@ Lemma exec_rcmd_appends s now t c :
   sched_q now (t, c) -> appends now (s_retrans s) (s_retrans (fst (exec_rcmd s now c))).
 Proof.
   intros Hq. destruct c as [inst n|inst timeout]; simpl.
-  - unfold exec_resolve. destruct (query_unresolved (s_cache s) inst) as [sent o].
+  - unfold exec_resolve. destruct (if has_ptr_to (s_cache s) inst then query_unresolved (s_cache s) inst else (false, [])) as [sent o].
     destruct (followup_pinned n) as (_ & _ & Hw & _ & _ & Hg & Hn & _).
     destruct (sent && retry_guard n max_try) eqn:E; simpl; [|apply appends_refl].
     apply andb_true_iff in E as [_ E]. rewrite Hg in E. apply N.ltb_lt in E.
